@@ -5,6 +5,7 @@
 package tds
 
 import (
+	"fmt"
 	"sync"
 )
 
@@ -156,6 +157,12 @@ func (queue *PacketQueue) Bytes(n int) ([]byte, error) {
 
 	if n == 0 {
 		return []byte{}, nil
+	}
+
+	if n < 0 {
+		// e.g. a length field of the server that is smaller than the
+		// fixed part it is supposed to include
+		return []byte{}, fmt.Errorf("tds: cannot read %d bytes: %w", n, ErrNotEnoughBytes)
 	}
 
 	bs := make([]byte, n)
